@@ -122,7 +122,7 @@ Ltac leaf0 :=
         | (eapply snoc_last_disc; reflexivity)
         | (do 2 eexists; reflexivity) ].
 
-Ltac leaf := first [ leaf0 | left; leaf0 | right; leaf0 ].
+Ltac leaf := first [ leaf0 | left; leaf0 | right; leaf0 | left; repeat split; leaf0 | right; repeat split; leaf0 ].
 
 Ltac fin1 := cbn in *; brk; subst; repeat split; try leaf.
 
